@@ -86,6 +86,7 @@ fn main() {
                 "crashysparse" => seq::Profile::CrashySparse,
                 "sparse" => seq::Profile::Sparse,
                 "grow" => seq::Profile::Grow,
+                "slicecross" => seq::Profile::SliceCross,
                 _ => seq::Profile::General,
             };
             let nops: usize = m.get("ops").and_then(|s| s.parse().ok()).unwrap_or(40);
@@ -276,11 +277,18 @@ fn main() {
             let mut nruns = 0;
             for id in 0..n {
                 let kind = &kinds[id % kinds.len()];
+                let sparse_every: usize = m.get("sparse-every").and_then(|s| s.parse().ok()).unwrap_or(12).max(2);
+                let fprofile = match m.get("profile").map(|s| s.as_str()) {
+                    Some("flushy") => seq::Profile::Flushy,
+                    Some("churn") => seq::Profile::Churn,
+                    Some("slicecross") => seq::Profile::SliceCross,
+                    _ => seq::Profile::General,
+                };
                 let case = if kind == "format" {
                     // every other self-formatted case: many L1 entries (second block of the L1 table)
-                    seq::gen_case(seed, id, if id % 12 == 6 { seq::Profile::Sparse } else { seq::Profile::General }, nops)
+                    seq::gen_case(seed, id, if (id / kinds.len()) % sparse_every == sparse_every / 2 { seq::Profile::Sparse } else { fprofile }, nops)
                 } else {
-                    seq::gen_built_case(seed, id, seq::Profile::General, nops, kind)
+                    seq::gen_built_case(seed, id, fprofile, nops, kind)
                 };
                 let images = match std::panic::catch_unwind(|| seq::case_images(&case)) {
                     Ok(Ok(i)) => i,
@@ -299,6 +307,7 @@ fn main() {
                 let mut r0 = seq::Runner::new(case.clone(), files, None);
                 r0.run();
                 let kinds0: Vec<(usize, char)> = r0.files[0].0.borrow().log.iter().map(|r| (r.id, r.kind.ch())).collect();
+                let ops0: Vec<usize> = r0.files[0].0.borrow().log.iter().map(|r| r.op).collect();
                 let total = kinds0.len();
                 if total == 0 {
                     continue;
@@ -315,6 +324,17 @@ fn main() {
                         points.push(c[rng.below(c.len() as u64) as usize]);
                     }
                 }
+                // targeted: metadata loads in the middle of a discard (the operation has changed
+                // something already when the load fails)
+                let mut dreads: Vec<usize> = (0..total)
+                    .filter(|i| kinds0[*i].1 == 'R' && matches!(case.ops.get(ops0[*i]), Some(seq::Op::Discard { .. })))
+                    .collect();
+                for _ in 0..4 {
+                    if dreads.is_empty() {
+                        break;
+                    }
+                    points.push(dreads.swap_remove(rng.below(dreads.len() as u64) as usize));
+                }
                 points.retain(|p| *p < total);
                 points.sort();
                 points.dedup();
@@ -325,6 +345,17 @@ fn main() {
                 // random multi-request subsets and punch-unsupported
                 let multi: Vec<usize> = (0..total).filter(|_| rng.chance(1, 6)).collect();
                 variants.push((format!("multi:{}", multi.len()), multi, false));
+                // two writes of one batch fail (consecutive write requests of one operation)
+                let mut wpairs: Vec<usize> = (0..total.saturating_sub(1))
+                    .filter(|i| kinds0[*i].1 == 'W' && kinds0[*i + 1].1 == 'W' && ops0[*i] == ops0[*i + 1])
+                    .collect();
+                for _ in 0..3 {
+                    if wpairs.is_empty() {
+                        break;
+                    }
+                    let a = wpairs.swap_remove(rng.below(wpairs.len() as u64) as usize);
+                    variants.push((format!("wpair:{}", a), vec![a, a + 1], false));
+                }
                 // the backend is down for a few consecutive requests
                 for _ in 0..2 {
                     let a = rng.below(total as u64) as usize;
